@@ -3,6 +3,7 @@ import LogosModel.WfProof
 import LogosModel.CertCheck
 import LogosModel.CertP
 import LogosModel.SpecProof
+import LogosModel.PartialSafe
 /-!
 # Non-vacuity: the hypotheses of the main theorems are satisfiable by concrete, non-trivial objects
 
@@ -52,5 +53,19 @@ example : (specLex prios D (fun _ _ _ => ⟨.emit, 0⟩) false [97, 98, 97, 97])
 /-- an error item: `b` alone matches nothing; span 0..1, then `a` -/
 example : (graphLex G false (fun _ _ _ => ⟨.emit, 0⟩) false [98, 97]).1 = [.err none 0 1, .ok 0 1 2] := by
   decide +kernel
+
+/-- C07: the partial lexer over the prefix `ab a` commits `ab` (leaf 1), then waits at position 2 with an
+empty span, since `a` could still grow; `C07_partial_safe` applies to this graph with any extension -/
+example : graphLex G true (fun _ _ _ => ⟨.emit, 0⟩) false [97, 98, 97] = ([.ok 1 0 2], .done 2 2) := by
+  decide +kernel
+
+theorem partial_safe_G (pre ext : List Nat) (hb : ∀ b ∈ pre ++ ext, b < 256) (items : List Item) (q q' : Nat)
+    (h : graphLex G true (fun _ _ _ => ⟨.emit, 0⟩) false pre = (items, .done q q')) :
+    q = q' ∧ q ≤ pre.length ∧
+    ∃ rest, graphLex G false (fun _ _ _ => ⟨.emit, 0⟩) false (pre ++ ext) =
+      (items ++ rest, .done (pre ++ ext).length (pre ++ ext).length) ∧
+      lexFrom (walkAttempt G false (pre ++ ext)) (fun _ _ _ => ⟨.emit, 0⟩) false (pre ++ ext) ((pre ++ ext).length + 2) q =
+        (rest, .done (pre ++ ext).length (pre ++ ext).length) :=
+  C07_partial_safe wf_G _ (fun _ _ _ => rfl) (fun _ _ _ _ => rfl) false pre ext hb (by simp) items q q' h
 
 end Logos.NonVacuity
